@@ -1179,7 +1179,27 @@ impl Display for FunctionBody {
     fn fmt(&self, f: &mut std::fmt::Formatter<'_>) -> std::fmt::Result {
         write!(f, "{}", self.0)?;
         if let Some(redirect_list) = &self.1 {
-            write!(f, "{redirect_list}")?;
+            if ENCLOSING_LISTS.with(std::cell::Cell::get) > 0 {
+                // The enclosing list writes the here-document bodies after this line.
+                write!(f, "{redirect_list}")?;
+            } else {
+                // The definition's own redirection list is one line: the bodies of all its
+                // here-documents follow the whole list, not the redirection that opens them.
+                ENCLOSING_LISTS.with(|n| n.set(n.get() + 1));
+                let result = write!(f, "{redirect_list}");
+                ENCLOSING_LISTS.with(|n| n.set(n.get() - 1));
+                result?;
+                let here_docs = PENDING_HERE_DOCS.with(|p| std::mem::take(&mut *p.borrow_mut()));
+                if !here_docs.is_empty() {
+                    verbatim(|| {
+                        writeln!(f)?;
+                        for here_doc in &here_docs {
+                            write!(f, "{here_doc}")?;
+                        }
+                        Ok(())
+                    })?;
+                }
+            }
         }
 
         Ok(())
